@@ -28,7 +28,14 @@ def ystr(b):
 
 
 def ynum(x):
-    return repr(float(x)) if not isinstance(x, str) else x
+    if isinstance(x, str):
+        return x
+    x = float(x)
+    if x != x:
+        return ".nan"
+    if x in (float("inf"), float("-inf")):
+        return ".inf" if x > 0 else "-.inf"
+    return repr(x)
 
 
 def dur(ns):
